@@ -64,6 +64,7 @@ struct StrForm
       aux = String(buf, len + 4);
       s = (len & 1) ? aux.substr(-(ssize)(len + 2), (ssize)len) : aux.substr(2, (ssize)len);
       if(len == 0 && aux.substr(2).length() != 2) abort();
+      if(aux.substr((ssize)len + 10).length() != 0 || aux.substr(2, (ssize)len + 100).length() != len + 2) abort();   // clamped
       break;
     }
     case 10:                    // cleared (own block kept / shared block dropped), then append(const String&)
@@ -88,6 +89,13 @@ struct StrForm
       aux.attach(buf, len);
       s = String("previously owned", 16);
       s = aux;
+      if(len & 1)
+      {
+        String v;                 // conversion of a non-const unterminated view: private terminated copy
+        v.attach(buf, len);
+        const char* q = v;
+        if(q == buf || q[len] || memcmp(q, buf, len) != 0) abort();
+      }
       break;
     }
     }
@@ -167,6 +175,11 @@ inline usize hash(const Key& k)
 }
 #endif
 
+#ifdef KEY_STRING
+// the String-key build compiles the containers the way a translation unit that includes Debug.hpp does (String.cpp instantiates
+// HashSet<String> that way): `VERIFY(new(item) Item(key) == item)`; the int-key build compiles the plain variant
+#include <nstd/Debug.hpp>
+#endif
 #define private public
 #include <nstd/HashMap.hpp>
 #include <nstd/HashSet.hpp>
@@ -562,6 +575,16 @@ int main()
       else if(w == 32) r = sg ? hash((int32)(uint32)x) : hash((uint32)x);
       else r = sg ? hash((int64)(uint64)x) : hash((uint64)x);
       printf("num %lu", (unsigned long)r);
+      hxEndLine();
+      continue;
+    }
+    if(hxIs(l, "hashptr", 1))
+    {
+      unsigned long long x = strtoull(l.tok[1], 0, 10);
+      const void* p = (const void*)(usize)x;
+      usize r = hash(p);
+      printf("num %lu", (unsigned long)r);
+      if(hash((const void*)(usize)x) != r) printf(" HASH-NOT-A-FUNCTION");
       hxEndLine();
       continue;
     }
